@@ -18,6 +18,7 @@ def parseProc (j : Json) : Except String (Kind × Nat) := do
   | "populate" => pure (.populate, now)
   | "load" => pure (.load a, now)
   | "refresh" => pure (.refresh a, now)
+  | "peek" => pure (.peek a, now)
   | _ => throw s!"unknown process kind {k}"
 
 def parseAction (j : Json) : Except String Action := do
@@ -38,6 +39,7 @@ def errJson : Option CErr → Json
   | none => Json.null
   | some .tooRecent => Json.str "tooRecent"
   | some .lockTimeout => Json.str "lockTimeout"
+  | some .tsUnreadable => Json.str "tsUnreadable"
 
 def gotJson : Option (Option Content) → Json
   | none => Json.null
@@ -47,7 +49,7 @@ def gotJson : Option (Option Content) → Json
 def pcName : Pc → String
   | .list1 => "list1" | .readTs => "readTs" | .openLock => "openLock" | .tryLock _ => "tryLock"
   | .pick _ => "pick" | .mktemp _ => "mktemp" | .create _ => "create" | .append _ _ => "append"
-  | .rename _ => "rename" | .writeTs => "writeTs" | .unlock => "unlock" | .list2 => "list2" | .read => "read"
+  | .rename _ => "rename" | .truncTs => "truncTs" | .writeTs => "writeTs" | .unlock => "unlock" | .list2 => "list2" | .read => "read"
 
 def procJson (pr : Proc) : Json :=
   jobj [("status", Json.str (statusName pr.status)), ("err", errJson pr.err), ("saw", jbool pr.saw),
@@ -75,7 +77,7 @@ def handle (op : String) (j : Json) : Option (Except String Json) :=
         ("trace", jarr (tr.map fun e => jarr [jnat e.pid, Json.str e.what, jnat e.i, jnat e.j])),
         ("overlap", jbool ov),
         ("finals", jarr finals), ("tmps", jarr tmps),
-        ("lockFile", jbool s.lockFile), ("holder", jopt jnat s.holder), ("ts", jopt jnat s.ts),
+        ("lockFile", jbool s.lockFile), ("holder", jopt jnat s.holder), ("ts", jopt jnat s.ts), ("tsTorn", jbool s.tsTorn),
         ("dirty", jbool s.dirty),
         ("procs", jarr ((List.range n).map fun p => procJson (s.procs p)))]
   | _ => none
